@@ -82,8 +82,15 @@ HAND = [
     ('doc_multi2', 'def f(a, b, c):\n  """Summary of a 2-space file.\n\n  Args:\n    a: a number\n  """\n  while a > 0:\n    a = a - 1\n  return a\n'),
     ('doc_multi8', 'def f(a, b, c):\n        """Summary of an 8-space file.\n\n        continuation at eight\n            and twelve columns\n        """\n        for i in a:\n                b = b + i\n        return b\n'),
     ('doc_flush', 'def f(a, b, c):\n    """Table:\n\nx > 0   -> 2 * x\nx <= 0  -> x\n \\ttab and \\\\ backslash, \'quote\', "dq"\n"""\n    if a > 0:\n        return 2 * a\n    return a\n'),
-    ('doc_nested', 'def f(a, b, c):\n    """Outer\n  shallow (2)\n            deep (12)\n    """\n    def g(x):\n        """Inner helper.\n\n      six columns\nflush left\n        """\n        if x:\n            return 1\n        return 2\n    class K:\n        """Class doc\n    four\n        """\n        def m(self):\n            """Method doc.\n  two\n            """\n            return 1\n    return g(a), K\n'),
+    ('doc_nested', 'def f(a, b, c):\n    """Outer\n  shallow (2)\n            deep (12)\n    """\n    def g(x):\n        """Inner helper.\n\n      six columns\nflush left\n        """\n        if x:\n            return 1\n        return 2\n    class K:\n        def m(self):\n            """Method doc.\n  two\n            """\n            return 1\n    return g(a), K\n'),
     ('doc_deep', 'def make():\n    if True:\n        def f(a, b, c):\n            """Defined 8 columns deep.\n\n            twelve\n        eight\n            """\n            if a:\n                b = c\n            return b\n        return f\nf = make()\n'),
+    # entities whose function object carries attributes that steer `inspect` (functools.wraps /
+    # update_wrapper set __wrapped__; __signature__; plain attributes): to_code must still show the loaded module
+    ('ent_wraps', 'import functools\n\ndef logged(g):\n    @functools.wraps(g)\n    def wrapper(*args, **kwargs):\n        """Wrapper doc."""\n        if args:\n            return g(*args, **kwargs)\n        return None\n    return wrapper\n\n@logged\ndef f(a, b, c):\n    """User doc."""\n    if a:\n        return b\n    return c\n'),
+    ('ent_update_wrapper', 'import functools\n\ndef user(a, b, c):\n    while a:\n        a -= 1\n    return b\n\ndef f(a, b, c):\n    for i in a:\n        b += i\n    return b, c\nfunctools.update_wrapper(f, user)\n'),
+    ('ent_manual_wrapped', 'def other(x):\n    return x\n\ndef f(a, b, c):\n    if a:\n        b = c\n    return b\nf.__wrapped__ = other\nf.tag = {"k": 1}\nf.calls = 0\n'),
+    ('ent_signature', 'import inspect\n\ndef other(p, q=1, *r):\n    return p\n\ndef f(a, b, c):\n    if a:\n        return b\n    return c\nf.__signature__ = inspect.signature(other)\nf.__doc__ = "changed later"\nf.__qualname__ = "Q.f"\n'),
+    ('ent_double', 'import functools\n\ndef deco(g):\n    @functools.wraps(g)\n    def w1(a, b, c):\n        if a:\n            return g(a, b, c)\n        return c\n    return w1\n\n@deco\n@deco\ndef f(a, b, c):\n    return a if b else c\n'),
     ('printcall', 'def f(a, b, c):\n    print(a, len(b), range(c), sep="")\n    return int(a) + float(b) + abs(c)\n'),
 ]
 
@@ -861,6 +868,23 @@ def loaded_checks(api, fn, conv, root, recursive, feats, mon):
                     'file %s line %d: loaded module has %r, to_code line %d is %r' % (
                         path, first + bad_line, seg[bad_line] if bad_line < len(seg) else None, bad_line + 1,
                         clines[bad_line] if bad_line < len(clines) else None)))
+    # nothing on the converted function object may redirect `inspect` away from the loaded module
+    try:
+        if inspect.unwrap(conv) is not conv:
+            out.append(('converted function carries __wrapped__: inspect resolves it to another function',
+                        'inspect.unwrap(to_graph(f)) is %r' % (inspect.unwrap(conv),)))
+        sf = inspect.getsourcefile(conv)
+        if sf != path:
+            out.append(('inspect.getsourcefile of the converted function is not the loaded module file', '%r vs %r' % (sf, path)))
+        want_params = [a.arg for a in root.args.posonlyargs + root.args.args] + \
+            ([root.args.vararg.arg] if root.args.vararg else []) + [a.arg for a in root.args.kwonlyargs] + \
+            ([root.args.kwarg.arg] if root.args.kwarg else [])
+        got_params = list(inspect.signature(conv).parameters)
+        if got_params != want_params:
+            out.append(('inspect.signature of the converted function is not the signature of the generated def',
+                        '%r vs %r' % (got_params, want_params)))
+    except Exception as e:   # noqa
+        out.append(('inspect on the converted function raised', '%s: %s' % (type(e).__name__, e)))
     # the code that runs is the code of that file
     try:
         mc = compile(file_text, path, 'exec')
